@@ -23,6 +23,7 @@ RULE = ("States drawn as elements (elliptic and hyperbolic) and turned into coor
         "oracle; maneuver dates drawn on, next to (1 us) and off the integration grid.")
 ASSUMPTIONS = [
     "oracle triads: QSW rows (r^, h^ x r^, h^), TNW rows (v^, h^ x v^, h^) from vf/oracles/integrate.py",
+    "total delta-v of a propagation capped at 0.3 x the smallest transverse velocity (the state stays clear of h = 0)",
     "KeplerNum(method='rk4') is the classical Runge-Kutta method (its step is reproduced bit for bit by "
     "the oracle on maneuver-free steps, which is checked); Earth point mass only; step 30-120 s; "
     "10-30 steps; forward propagation from the orbit's own date with the propagator's own step",
@@ -434,6 +435,19 @@ def run_library(c0, d0, h_us, n, mans):
     return out
 
 
+def dv_cap(c0, t_end, mu):
+    """Largest total delta-v for which the state keeps clear of h = 0 and v = 0 (where QSW / TNW are
+    undefined - outside the property): 0.3 x the smallest transverse velocity of the free motion."""
+    end = tb.propagate_uv(c0, t_end, mu)
+    h = float(np.linalg.norm(np.cross(c0[:3], c0[3:])))
+    return 0.3 * h / max(float(np.linalg.norm(c0[:3])), float(np.linalg.norm(end[:3])))
+
+
+def vperp(y):
+    """transverse velocity |r x v| / |r|"""
+    return float(np.linalg.norm(np.cross(y[:3], y[3:])) / np.linalg.norm(y[:3]))
+
+
 def defects(ys, h, mu):
     return [ys[j + 1] - np.asarray(ig.rk4_step(ys[j], h, mu)) for j in range(len(ys) - 1)]
 
@@ -484,6 +498,12 @@ def check_impulse(case):
     d0 = mkdate(case["t0"])
     h_us, n = case["h_us"], case["n"]
     h = h_us / 1e6
+    cap = dv_cap(c0, n * h, mu)
+    tot_dv = sum(float(np.linalg.norm(m["dv"])) for m in case["mans"] if m["kind"] == "imp")
+    capped = tot_dv > cap
+    if capped:
+        case = dict(case, mans=[dict(m, dv=[x * cap / tot_dv for x in m["dv"]]) if m["kind"] == "imp" else m
+                                for m in case["mans"]])
     mans = []
     for m in case["mans"]:
         date = d0 + timedelta(microseconds=m["t"])
@@ -543,7 +563,7 @@ def check_impulse(case):
         vnorm = float(np.linalg.norm(ys[cl[0]][3:]))
         floor = 1e-13 * vnorm
         # several impulses in one cluster: each changes the axes seen by the next
-        pair = sum(a * b for x, a in enumerate(mags) for b in mags[x + 1:]) * 2 / vnorm
+        pair = sum(a * b for x, a in enumerate(mags) for b in mags[x + 1:]) * 2 / min(vperp(ys[j]) for j in cl)
         got = tot[3:]
         if len(ids) == 1:
             rel = 2 * theta**2 + 1e-9
@@ -578,6 +598,8 @@ def check_impulse(case):
         cls.append("kind:kep" if m["kind"] == "kep" else f"tag:{m['tag']}")
     if any(len(cl) > 1 or len(allowed[cl[0]]) > 1 for cl in clusters):
         cls.append("shared-step")
+    if capped:
+        cls.append("dv-capped")
     nt = any(m["t"] % h_us != 0 for m in case["mans"]) or el["e"] > 1
     return dict(nt=nt, cls=cls, ratio=worst, parts=dict(sharp=worst, direction=dirfrac, kep=kepfrac))
 
@@ -627,6 +649,10 @@ def check_continuous(case):
     stop = start + dur
     secs = dur / 1e6
     dvv = np.array(case["dv"], float)
+    cap = dv_cap(c0, n * h, mu)
+    capped = float(np.linalg.norm(dvv)) > cap
+    if capped:
+        dvv = dvv * cap / float(np.linalg.norm(dvv))
     acc = dvv / secs
     shift = {"start": 0, "median": dur // 2, "stop": dur}[case["date_pos"]]
     date = d0 + timedelta(microseconds=start + shift)
@@ -653,7 +679,8 @@ def check_continuous(case):
         lo, hi = j * h_us, (j + 1) * h_us
         dr, dv = float(np.linalg.norm(res[j][:3])), float(np.linalg.norm(res[j][3:]))
         # angle swept by the local axes during the step: orbital motion + the turn the thrust itself gives the velocity
-        theta = theta_of(ys, j, h) + amag * h / min(float(np.linalg.norm(ys[j][3:])), float(np.linalg.norm(ys[j + 1][3:])))
+        # (an out-of-plane or transverse push turns the axes at accel / transverse velocity)
+        theta = theta_of(ys, j, h) + amag * h / min(vperp(ys[j]), vperp(ys[j + 1]))
         if hi < start or lo > stop:
             tr, tv = quiet_tol(ys[j + 1])
             worst = max(worst, dr / tr, dv / tv)
@@ -701,7 +728,7 @@ def check_continuous(case):
                         f"steps at the edges delivered {delivered_edges!r} m/s, |accel| x remaining time = {want_edges!r} m/s "
                         f"(difference {d:.6g}, allowance {tol:.3g}; stated total {total!r} m/s)",
                         delivered=delivered_edges, stated=want_edges)
-    vmin = min(float(np.linalg.norm(y[3:])) for y in ys)
+    vmin = min(vperp(y) for y in ys)
     # end state against the reference integration with thrust on [start, stop)
     t_end = n * h
     ref, err = ig.propagate_with_burns(c0, t_end, mu, burns=[(start / 1e6, stop / 1e6, acc, frame)])
@@ -735,6 +762,8 @@ def check_continuous(case):
                             "both-edges-on-grid" if on_grid else "edge-off-grid"]
     if dur < h_us:
         cls.append("shorter-than-a-step")
+    if capped:
+        cls.append("dv-capped")
     return dict(nt=(not on_grid) or el["e"] > 1, cls=cls, ratio=worst,
                 parts=dict(sharp=worst, quadrature=quad, end=endfrac))
 
